@@ -23,9 +23,10 @@ type workerCheckpoint struct {
 func newCheckpoint(stats SamplingStats) checkpoint {
 	workers := make([]workerCheckpoint, 0, len(stats.Workers))
 	for _, w := range stats.Workers {
-		// no need to resume recent jobs after restart. On the other hand, retry jobs will resume from
-		// failed heights map. it leaves only catchup jobs to be stored and resumed
-		if w.JobType == catchupJob {
+		// retry jobs will resume from failed heights map. Catchup jobs are stored and resumed, and so are
+		// recent jobs: the catchup cursor has already moved past the head a recent job is sampling, so
+		// dropping an in-flight recent job would lose its height on restart
+		if w.JobType == catchupJob || w.JobType == recentJob {
 			workers = append(workers, workerCheckpoint{
 				From:    w.Curr,
 				To:      w.To,
